@@ -229,7 +229,10 @@ Outcomes(c, pos, shape, as0, ps) ==
       vals == {a \in as : a[1] \in ValueBytes} \cup locs
       \* the first detecting alteration in record order names the check
       firstDet == CHOOSE x \in dets : \A y \in dets : FieldIdx(x[1][1]) <= FieldIdx(y[1][1])
-      overrunFirst == overruns # {} /\ (dets = {} \/ \E o \in overruns : FieldIdx(o[1][1]) <= FieldIdx(firstDet[1][1]))
+      \* the Alh comparison comes after the whole record was parsed; bounds and parse errors come in field order
+      early == {x \in dets : x[2].by # "Alh"}
+      firstEarly == CHOOSE x \in early : \A y \in early : FieldIdx(x[1][1]) <= FieldIdx(y[1][1])
+      overrunFirst == overruns # {} /\ (early = {} \/ \E o \in overruns : FieldIdx(o[1][1]) <= FieldIdx(firstEarly[1][1]))
       sizeUp == <<"cTxSize", "up">> \in as
       calh == \E a \in as : a[1] = "cAlh" /\ a[2] # "dup"
       rs == {ReadResult(c, a[1], a[2]) : a \in vals}
